@@ -53,6 +53,35 @@ Theorem C13_stereotype_in_force : forall sc m l1 who c l2,
 Proof. exact stereotype_in_force. Qed.
 Print Assumptions C13_stereotype_in_force.
 
+(* only_catch_flag_matters.  A Stereotyp has five public flags; des reads on_panic_catch only (unwind.rs).  The scripts
+   set all five -- bits 4..7 of a module's catch field for the initial stereotype, field a of the set_stereotyp actions
+   (ops 8 / 9) at run time -- and the model never looks at the other four: a module's configuration depends on its catch
+   field only through its low four bits (on_panic_catch and the join mask), and the action decoded from a set_stereotyp
+   quadruple does not depend on its field a.  So the run of the model -- trace and returned error -- is the same for all 16
+   settings of the other four flags, initially and at every change; that the code behaves the same is what the
+   differential runs over the full flag space check (seeded change stereotyp_bits_shift: a packed representation that
+   lets on_panic_inform_parent land on the on_panic_catch bit). *)
+Theorem C13_only_catch_flag_matters :
+  (forall k ca ca' rest, ca mod 16 = ca' mod 16 -> dec_mod k (ca :: rest) = dec_mod k (ca' :: rest)) /\
+  (forall k o a a' b c r, (o mod 16 =? 8) || (o mod 16 =? 9) = true -> quads k (o :: a :: b :: c :: r) = quads k (o :: a' :: b :: c :: r)).
+Proof.
+  split.
+  - intros k ca ca' rest H. unfold dec_mod. cbn [nxt].
+    assert (G1 : forall x, N.odd x = N.odd (x mod 16)).
+    { intros x. rewrite (N.div_mod x 16) at 1 by discriminate. rewrite N.add_comm.
+      replace (16 * (x / 16)) with (2 * (8 * (x / 16))) by (rewrite N.mul_assoc; reflexivity). apply N.odd_add_mul_2. }
+    assert (G2 : forall x, (x / 2) mod 8 = (x mod 16) / 2).
+    { intros x. rewrite (N.div_mod x 16) at 1 by discriminate.
+      replace (16 * (x / 16) + x mod 16) with ((8 * (x / 16)) * 2 + x mod 16) by (rewrite <- N.mul_assoc, (N.mul_comm (x / 16) 2), N.mul_assoc; reflexivity).
+      rewrite N.div_add_l by discriminate. rewrite N.add_comm, N.mul_comm, N.mod_add by discriminate.
+      apply N.mod_small. apply N.div_lt_upper_bound; [discriminate|]. apply (N.mod_lt x 16). discriminate. }
+    assert (E1 : N.odd ca = N.odd ca') by (rewrite (G1 ca), (G1 ca'), H; reflexivity).
+    assert (E2 : (ca / 2) mod 8 = (ca' / 2) mod 8) by (rewrite !G2, H; reflexivity).
+    rewrite E1, E2. reflexivity.
+  - intros k o a a' b c r H. cbn [quads]. apply orb_true_iff in H. destruct H as [H|H]; apply N.eqb_eq in H; rewrite H; reflexivity.
+Qed.
+Print Assumptions C13_only_catch_flag_matters.
+
 (* globals_released: after every start-up step and every dispatched event -- panicking ones
    included -- the module-context slot (MOD_CTX) is empty and the event buffer (BUF_CTX.events)
    is drained; the context slot is empty after every module's at_sim_end as well *)
